@@ -73,7 +73,9 @@ srtp_err_status_t srtp_key_limit_clone(srtp_key_limit_t original,
 
 srtp_key_event_t srtp_key_limit_update(srtp_key_limit_t key)
 {
-    key->num_left--;
+    if (key->num_left > 0) {
+        key->num_left--;
+    }
     if (key->num_left >= soft_limit) {
         return srtp_key_event_normal; /* we're above the soft limit */
     }
